@@ -255,3 +255,24 @@ def with_forwarded(fx, f, depth=1):
         if g is not None and g["kind"] in ("fn", "assoc_fn") and not g.get("is_async") and g not in out:
             out.extend(x for x in with_forwarded(fx, g, depth - 1) if x not in out)
     return out
+
+
+def forwarding_closure(fx, makers, roots_fn, body_fn):
+    """makers: {callee name: index of the argument of interest}.  A crate-local function that hands one of its own
+    parameters, unmodified, to a maker at that argument is itself a maker for that parameter (a shared helper such as
+    `Environment::launch(self, actor)` between the entry points and the loop constructor).  Returns the closed table."""
+    out = dict(makers)
+    changed = True
+    while changed:
+        changed = False
+        for g, _bi, t in all_calls(fx, lambda x: (x.get("callee") in out) or (x.get("resolved") in out)):
+            if g["kind"] not in ("fn", "assoc_fn") or g["def"] in out:
+                continue
+            idx = out.get(t.get("callee"), out.get(t.get("resolved")))
+            if idx is None or idx >= len(t["args"]):
+                continue
+            rs = roots_fn(body_fn(g), t["args"][idx])
+            if rs and all(r.kind == "arg" and not r.proj for r in rs) and len({r.site for r in rs}) == 1:
+                out[g["def"]] = next(iter(rs)).site - 1
+                changed = True
+    return out
